@@ -176,7 +176,7 @@ def _c08_extra(case, ns, path, hk, ref):
     if hk["kind"] == "lit":
         got = []
     if want != got:
-        out.append(engine_g.Finding("C08", "required_args_differ", case, key=list(path), detail={"required_by_source": want, "builder_fields": got}))
+        out.append(engine_g.Finding("C08", "required_args_differ", case, key=list(path), ns=ns, hk=hk, detail={"required_by_source": want, "builder_fields": got}))
         return out
     bounds = hk.get("bounds", {})
     for name, kinds in counts.items():
@@ -189,7 +189,7 @@ def _c08_extra(case, ns, path, hk, ref):
         else:
             ok = "InterpolateRangeCount<%s>" % kind in b
         if not ok:
-            out.append(engine_g.Finding("C08", "count_bound_differs", case, key=list(path), detail={"field": name, "declared": kind, "bounds": b}))
+            out.append(engine_g.Finding("C08", "count_bound_differs", case, key=list(path), ns=ns, hk=hk, detail={"field": name, "declared": kind, "bounds": b}))
     return out
 
 
